@@ -20,14 +20,14 @@ IR_RUNS = {
     "C02": {"quick": [("MC", "mirror", 1), ("MC", "mirror_add", 2), ("MC", "conn", 2), ("MC", "clone_closed", 1), ("SUITE", "tests", 0)],
             "thorough": [("MC", "mirror", 2), ("MC", "mirror_add", 3), ("MC", "conn", 3), ("MC", "clone_closed", 2), ("SUITE", "tests", 0)]},
     "C14": {"quick": [("MC", "conn", 2), ("MC", "mirror", 1), ("MC", "mirror_add", 2), ("MC", "naming", 2),
-                      ("MC", "naming_edif", 2), ("MC", "naming_two", 1), ("MC", "body", 2), ("MC", "naming_adopt", 2)],
+                      ("MC", "naming_edif", 2), ("MC", "naming_two", 1), ("MC", "body", 2), ("MC", "naming_adopt", 2), ("MC", "naming_top", 1)],
             "thorough": [("MC", "conn", 3), ("MC", "mirror", 2), ("MC", "mirror_add", 3), ("MC", "body", 3), ("MC", "contain", 4),
                          ("MC", "naming", 3), ("MC", "naming_edif", 3), ("MC", "naming_mix", 3), ("MC", "naming_two", 2),
-                         ("MC", "naming_adopt", 3), ("MC", "naming_adopt2", 3)]},
+                         ("MC", "naming_adopt", 3), ("MC", "naming_adopt2", 3), ("MC", "naming_top", 2)]},
     "C19": {"quick": [("MC", "conn", 2), ("MC", "mirror", 1), ("MC", "mirror_add", 2), ("MC", "contain", 2),
-                      ("MC", "naming", 1), ("MC", "body", 2)],
+                      ("MC", "naming", 1), ("MC", "body", 2), ("MC", "naming_top", 1)],
             "thorough": [("MC", "conn", 3), ("MC", "mirror", 2), ("MC", "mirror_add", 3), ("MC", "contain", 3),
-                         ("MC", "body", 3), ("MC", "naming", 2), ("MC", "naming_edif", 2), ("MC", "naming_mix", 2)]},
+                         ("MC", "body", 3), ("MC", "naming", 2), ("MC", "naming_edif", 2), ("MC", "naming_mix", 2), ("MC", "naming_top", 2)]},
     "C10": {"quick": [("MC", "naming", 2), ("MC", "naming_edif", 2), ("MC", "naming_mix", 2), ("MC", "naming_two", 1), ("MC", "naming_adopt", 2), ("MC", "naming_adopt2", 2), ("MC", "naming_long", 1)],
             "thorough": [("MC", "naming", 3), ("MC", "naming_edif", 3), ("MC", "naming_mix", 3), ("MC", "naming_two", 2), ("MC", "naming_adopt", 3), ("MC", "naming_adopt2", 3), ("MC", "naming_long", 2)]},
 }
